@@ -56,11 +56,12 @@ type Check struct {
 	Level       string            `json:"level"`
 	Harness     string            `json:"harness"`
 	Configs     []Config          `json:"configs"`
-	Instrument  []string          `json:"instrument"`   // repo-relative files or dirs rewritten by internal/instr
-	InstrSelf   bool              `json:"instr_self"`   // also rewrite the harness files
-	Inject      map[string]string `json:"inject"`       // repo-relative target -> /verif-relative source (verif_export files)
-	Shims       []string          `json:"shims"`        // shim packages needed besides vlib
-	Seams       []string          `json:"seams"`        // named seam rewrites: ilaenv, blocksize
+	Instrument  []string          `json:"instrument"` // repo-relative files or dirs rewritten by internal/instr
+	InstrSelf   bool              `json:"instr_self"` // also rewrite the harness files
+	Inject      map[string]string `json:"inject"`     // repo-relative target -> /verif-relative source (verif_export files)
+	Shims       []string          `json:"shims"`      // shim packages needed besides vlib
+	Seams       []string          `json:"seams"`      // named seam rewrites: ilaenv, blocksize
+	Rand        []string          `json:"rand"`       // repo-relative files whose math/rand/v2 import is redirected to the vrand twin
 	QuickS      float64           `json:"quick_deadline_s"`
 	ThoroughS   float64           `json:"thorough_deadline_s"`
 	Rule        string            `json:"rule"`
@@ -205,8 +206,11 @@ func genOverlay(c *Check, cfg *Config, work string, sv *sourceView) string {
 	for tgt, src := range c.Inject {
 		repl[filepath.Join(repoDir, tgt)] = filepath.Join(verifDir, src)
 	}
-	if instrOn || len(c.Seams) > 0 {
+	if instrOn || len(c.Seams) > 0 || len(c.Rand) > 0 {
 		var files []instr.File
+		for _, rel := range c.Rand {
+			files = append(files, instr.File{Rel: rel, Src: sv.path(rel), Mode: "rand"})
+		}
 		if instrOn {
 			for _, rel := range c.Instrument {
 				full := filepath.Join(repoDir, rel)
@@ -277,25 +281,25 @@ func build(c *Check, cfg *Config, work, overlay string) (string, error) {
 
 // Result mirrors vlib.Result.
 type Result struct {
-	Property    string                     `json:"property"`
-	Config      string                     `json:"config"`
-	Shard       string                     `json:"shard"`
-	Generated   int64                      `json:"generated"`
-	Evaluations int64                      `json:"evaluations"`
-	Distinct    int64                      `json:"distinct_nontrivial"`
-	DupKeys     int64                      `json:"duplicate_keys"`
-	Outcomes    map[string]int64           `json:"outcomes"`
-	Counters    map[string]int64           `json:"counters"`
-	Maxes       map[string]int64           `json:"maxes"`
+	Property    string                      `json:"property"`
+	Config      string                      `json:"config"`
+	Shard       string                      `json:"shard"`
+	Generated   int64                       `json:"generated"`
+	Evaluations int64                       `json:"evaluations"`
+	Distinct    int64                       `json:"distinct_nontrivial"`
+	DupKeys     int64                       `json:"duplicate_keys"`
+	Outcomes    map[string]int64            `json:"outcomes"`
+	Counters    map[string]int64            `json:"counters"`
+	Maxes       map[string]int64            `json:"maxes"`
 	Groups      map[string]map[string]int64 `json:"groups"`
-	Samples     []any                      `json:"samples"`
-	Violations  []Violation                `json:"violations"`
-	NViolations int64                      `json:"n_violations"`
-	Known       map[string]int64           `json:"known_hits"`
-	Complete    bool                       `json:"complete"`
-	StoppedAt   string                     `json:"stopped_at"`
-	WallS       float64                    `json:"wall_s"`
-	EngineErr   string                     `json:"engine_error"`
+	Samples     []any                       `json:"samples"`
+	Violations  []Violation                 `json:"violations"`
+	NViolations int64                       `json:"n_violations"`
+	Known       map[string]int64            `json:"known_hits"`
+	Complete    bool                        `json:"complete"`
+	StoppedAt   string                      `json:"stopped_at"`
+	WallS       float64                     `json:"wall_s"`
+	EngineErr   string                      `json:"engine_error"`
 }
 
 // Violation mirrors vlib.Violation.
@@ -309,11 +313,11 @@ type Violation struct {
 }
 
 type runSpec struct {
-	tier, seed, groups   string
-	replayG, replayK     string
-	deadline             float64
-	shards               int
-	memMB                int
+	tier, seed, groups string
+	replayG, replayK   string
+	deadline           float64
+	shards             int
+	memMB              int
 }
 
 func runWorkers(c *Check, cfg *Config, bin, work string, rs runSpec) ([]Result, error) {
